@@ -57,6 +57,13 @@ class C13(Property):
     min_nontrivial = {"quick": 3000, "thorough": 30000}
 
     def gen(self, rnd, i, tier):
+        if i % 25 == 24:
+            # composition level: chains of delay adapters under the real scheduler (C02's workload)
+            from .c02 import PROP as C02
+
+            spec = C02.gen(rnd, i, tier)
+            spec["kind"] = "composition"
+            return spec
         n = rnd.randint(1, 3)
         chain = []
         for _ in range(n):
@@ -93,7 +100,34 @@ class C13(Property):
                 events.append(["pull", r])
         return dict(chain=chain, start=start, events=events)
 
+    def _composition(self, spec):
+        from .. import sched_run
+
+        out = Outcome()
+        out.sample = spec
+        rep = sched_run.run_spec(spec)
+        out.count("compositions")
+        out.count("driver_requests_compared", rep.requests_compared)
+        for m in rep.request_mismatch:
+            out.viol("driver_assumes_other_time", f"during update of {m['comp']}: {m['output']} was asked for {m['requested']}h, composed delays give {m['model_needs']}", spec=spec)
+        for u in rep.unjustified:
+            out.viol("driver_assumes_later_time", f"{u['comp']} advanced although no dependant needs it at the shifted time: {u['reason']}", spec=spec)
+        for lk in rep.lacking_at_update:
+            out.viol("driver_assumes_earlier_time", f"{lk['comp']} updated while the shifted time is not yet published: {lk['lacking']}", spec=spec)
+        if rep.outcome != "ok" and not out.violations:
+            if rep.outcome == "FinamCircularCouplingError" and spec["meta"].get("cyclic"):
+                out.viol("delays_do_not_add_up", f"cycle with sufficient combined delay reported circular: {rep.message[:150]}", spec=spec)
+            else:
+                out.notes.append(f"composition run aborted: {rep.outcome}")
+        multi = sum(1 for ln in spec["links"] if sum(1 for a in ln["chain"] if a[0] in ("dfix", "dpull")) >= 2)
+        if multi and rep.requests_compared:
+            out.count("compositions_with_multi_delay_links")
+            out.key = "comp:" + repr([(ln["src"], ln["dst"], ln["chain"]) for ln in spec["links"]])[:400]
+        return out
+
     def run(self, spec):
+        if spec.get("kind") == "composition":
+            return self._composition(spec)
         out = Outcome()
         out.sample = spec
         start = spec["start"]
@@ -187,7 +221,8 @@ class C13(Property):
 
     def coverage_gaps(self, counters, tier):
         need = ["pulls", "time_at_source_compared", "pulls_before_start_data_compared", "served_shifted", "refused_out_of_range",
-                "chains_with_1_delays", "chains_with_2_delays", "chains_with_3_delays"]
+                "chains_with_1_delays", "chains_with_2_delays", "chains_with_3_delays",
+                "driver_requests_compared", "compositions_with_multi_delay_links"]
         return [f"{k} never observed" for k in need if not counters.get(k)]
 
 
